@@ -77,7 +77,7 @@ class Elf:
             return 'bad'            # section data not in the file: (*Section).Data fails
         magic, = struct.unpack_from('<I', d, base)
         if magic not in (0xfffffff0, 0xfffffff1) or d[base + 7] != 8:
-            raise ValueError('unsupported pclntab %#x' % magic)
+            return []                # debug/gosym does not recognise the table: no functions, no error
         nfunc, nfiles, text_start, funcname_off, cu_off, filetab_off, pctab_off, pcln_off = struct.unpack_from('<8Q', d, base + 8)
         ft = base + pcln_off
         out = []
@@ -128,6 +128,10 @@ class Elf:
     def set_section_offset(self, name, off):
         s = self.section(name)
         struct.pack_into('<Q', self.d, s['hdr'] + 0x18, off)
+
+    def poke_section(self, name, off, value):
+        s = self.section(name)
+        self.d[s['off'] + off] = value
 
     def set_shoff(self, off):
         struct.pack_into('<Q', self.d, 0x28, off)
